@@ -427,6 +427,7 @@ PLAN["C14"] = {
     "kani": [],
     "native": [{"stem": "module_reader", "filter": "", "tiers": Q, "tests": {
         "c14_well_formed_image_is_identified": H("B'", "BuildId/SoName::read_from_module", "8 hand-built ELF64 images: with/without build-id note, data section before .text (allocated; executable but not allocated), ABI-tag note first, program headers only, sections only"),
+        "bprime_memory_and_file_agree_for_loaded_modules": H("B'", "BuildId/SoName::read_from_module through ProcessReader (this process as the target) vs. from the file's bytes", "every ELF image loaded into the test process (test binary, libc, dynamic linker, libgcc ...) and the vDSO, whose dynamic section is not relocated"),
         "bprime_single_field_corruptions_never_panic": H("B'", "BuildId/SoName::read_from_module", "every field x (14 extremes + every other field's value and its neighbours), and all field pairs x 25 value pairs, with and without a note: 608 688 parses")}}],
     "trusted": ["agreement with an independent parser on installed files and memory-vs-file agreement need a second implementation and a live target: not decided",
                 "goblin's parsing beyond the paths these images exercise"],
